@@ -75,3 +75,7 @@ claim("C19", "DESIGN.md 3/C19",
       "189 stream runs (every set of 1-2 stream ids incl. CF-unsafe ones x test subsets x 3 window layouts) x every save variant (write_data x write_axes, include/exclude over every list of <=2 items of stream ids / test names / functions, single-item include x exclude pairs) with and without compute_aggregate: rows, column set, CF-safe names, values with NaN where unevaluated, axis/data columns, filter semantics and the roll-up column are compared with a reference frame; cf_safe_name on every string of length<=3 over 9 characters",
       "tables always have all axes; frames with no column and colliding sanitised ids not judged; roll-up judged without filters",
       TECH_TREE)
+claim("C20", "DESIGN.md 3/C20",
+      "(a) every expression tree of depth<=2 (thorough 3) over numbers/statistics/+-*/ /unary minus in minimal and fully parenthesised form x 3 statistics tuples through the real eval_fx vs python operator evaluation; (b) event graph: every evaluation history of depth<=3 (thorough 4) over 8 valid and 5 failing expressions on the real module-level parser stack - every valid expression evaluates in every state to its empty-history value; (c) every token string of length<=3 over 16 tokens through QcVariableConfig; (d) QcConfigCreator on synthetic time-constant NetCDF-3 climatologies: 4 cell patterns x 2-d/3-d x every index-aligned box x 4 date ranges x 3 expression sets",
+      "division-by-zero expressions and full-year date ranges not judged; tolerance 1e-12 / 1e-9",
+      TECH_TREE + "; " + TECH_GRAPH)
